@@ -1,20 +1,37 @@
 (* C20 - Format detection is total, consistent and recognises pycaption's own output.
-   This file contains only statements closed by `exact`, with Print Assumptions. *)
+   This file contains only statements closed by `exact`, with Print Assumptions; Examples show non-vacuity.
+   All theorems are about model/Detect.v: the six sniffers over ALL code points, with str.isdigit, re \d and
+   str.lower taken from tables generated from the running interpreter and the sniffing constants generated from the
+   working tree.  What ties the model to the code is the correspondence of harness/props/C20.py. *)
 From Coq Require Import List ZArith Bool.
-From PV Require Import lib.Sx lib.Str lib.Result model.Generated model.Detect spec.SpecDetect proofs.DetectFacts.
+From PV Require Import lib.Sx lib.Str lib.Result model.Generated model.Detect spec.SpecDetect spec.SpecOwn
+  proofs.DetectFacts proofs.DetectOwnFacts.
 Import ListNotations.
 Open Scope Z_scope.
 
-(* never raises: for every non-empty string and every reader *)
+(* ---------------- sentence 1: total, first match in the documented order ---------------- *)
+
+(* never raises: for every non-empty string and every reader (the stronger reading: every sniffer is total) *)
 Theorem C20_detect_never_crashes : forall s r, s <> [] -> In r documented_order ->
   is_crash (detect_of r s) = false.
 Proof. exact detect_of_no_crash. Qed.
 Print Assumptions C20_detect_never_crashes.
+Theorem C20_model_sniffers_total : forall s, s <> [] ->
+  all_sniffers_total (map (fun r => detect_of r s) documented_order) = true.
+Proof. exact model_sniffers_total. Qed.
+Print Assumptions C20_model_sniffers_total.
 
-(* the order the code iterates (generated from SUPPORTED_READERS) is the documented one *)
+(* ties to the working tree: the order the code iterates (generated from SUPPORTED_READERS) is the documented one,
+   and the sniffing constants read from the sniffers' code objects are the documented ones. These re-check on every
+   run against the regenerated model/Generated.v; they say nothing about HOW the code uses the constants. *)
 Theorem C20_generated_order_documented : supported_readers = [0; 1; 2; 3; 4; 5].
 Proof. exact generated_order_documented. Qed.
 Print Assumptions C20_generated_order_documented.
+Theorem C20_generated_constants_documented :
+  dfxp_marker = lit "</tt>" /\ vtt_marker = lit "WEBVTT" /\ sami_marker = lit "<sami" /\ srt_arrow = lit "-->" /\
+  mdvd_pattern = lit "{\d+}{\d+}" /\ scc_header = lit "Scenarist_SCC V1.0".
+Proof. exact generated_constants_documented. Qed.
+Print Assumptions C20_generated_constants_documented.
 
 (* detect_format = first reader in documented order whose own detect accepts *)
 Theorem C20_detect_format_first_match : forall s, s <> [] ->
@@ -29,17 +46,107 @@ Theorem C20_model_ok : forall s,
 Proof. exact model_ok_detect. Qed.
 Print Assumptions C20_model_ok.
 
+(* definitional (first `match` of the model); its value is the correspondence on "" *)
 Theorem C20_empty_raises_no_captions : detect_format [] = Err ENoCaptions.
 Proof. exact empty_raises_no_captions. Qed.
 Print Assumptions C20_empty_raises_no_captions.
 
-(* record of the repaired defect: the pinned SRT sniffer raised IndexError on "1" *)
+(* ---------------- sentence 2: own output, for the four writers that are string builders ---------------- *)
+(* A document of the format's shape (spec/SpecOwn.v) assembled from pieces - timing lines / frame prefixes / cue
+   texts - none of which contains the marker of a format probed earlier is detected as its own format.  The
+   hypothesis is on the PIECES; that no marker forms across piece boundaries is what is proved. *)
+Theorem C20_own_output_srt : forall tl txt rest,
+  srt_first_ok tl = true -> forallb srt_cue_ok ((tl, txt) :: rest) = true ->
+  detect_format (srt_document ((tl, txt) :: rest)) = Ok (Some R_SRT).
+Proof. exact own_srt. Qed.
+Print Assumptions C20_own_output_srt.
+Theorem C20_own_output_mdvd : forall d1 d2 txt rest, ascii_digits d1 = true -> ascii_digits d2 = true ->
+  forallb mdvd_cue_ok ((frames_prefix d1 d2, txt) :: rest) = true ->
+  detect_format (mdvd_document ((frames_prefix d1 d2, txt) :: rest)) = Ok (Some R_MDVD).
+Proof. exact own_mdvd. Qed.
+Print Assumptions C20_own_output_mdvd.
+Theorem C20_own_output_vtt : forall pieces, forallb (free before_vtt) pieces = true ->
+  detect_format (vtt_document pieces) = Ok (Some R_VTT).
+Proof. exact own_vtt. Qed.
+Print Assumptions C20_own_output_vtt.
+Theorem C20_own_output_scc : forall body, forallb scc_body_char body = true ->
+  detect_format (scc_document body) = Ok (Some R_SCC).
+Proof. exact own_scc. Qed.
+Print Assumptions C20_own_output_scc.
+
+(* ---------------- history ---------------- *)
+(* record of the repaired defect (e1d5b58): the pinned SRT sniffer raised IndexError on "1".
+   detect_srt_prefix mirrors nothing in the current tree. *)
 Theorem C20_srt_detect_index_refuted : exists s, s <> [] /\ is_crash (detect_srt_prefix s) = true.
 Proof. exact srt_detect_index_refuted. Qed.
 Print Assumptions C20_srt_detect_index_refuted.
 
-(* non-vacuity: a non-trivial string on which several sniffers are consulted *)
+(* ---------------- non-vacuity ---------------- *)
 Example C20_example : detect_format (lit "12
 00:00:01,000 --> 00:00:02,000
 hi") = Ok (Some R_SRT).
 Proof. vm_compute. reflexivity. Qed.
+
+(* the order clause: several sniffers accept, the first in the documented order wins *)
+Example C20_example_order :
+  detect_format (lit "{1}{2}WEBVTT</tt>") = Ok (Some R_DFXP) /\
+  detect_format (lit "{1}{2}WEBVTT<sami") = Ok (Some R_MDVD) /\
+  detect_format (lit "WEBVTT<sami") = Ok (Some R_VTT) /\
+  map (fun r => detect_of r (lit "{1}{2}WEBVTT</tt>")) documented_order
+    = [Ok true; Ok true; Ok true; Ok false; Ok false; Ok false].
+Proof. vm_compute. repeat split. Qed.
+
+(* SRT and SCC see a single empty line; the empty string; nothing accepts *)
+Example C20_example_blank :
+  detect_format [10] = Ok None /\ detect_format [32] = Ok None /\ detect_format [] = Err ENoCaptions /\
+  detect_of R_SRT [10] = Ok false /\ detect_of R_SCC [] = Err IndexError /\ detect_format (lit "1") = Ok None.
+Proof. vm_compute. repeat split. Qed.
+
+(* outside ASCII: U+0130 lowers to "i" + U+0307, superscript two and Arabic-Indic one are str.isdigit,
+   Arabic-Indic / fullwidth digits match \d, superscript two does not *)
+Example C20_example_unicode :
+  detect_format (lit "<sam" ++ [304]) = Ok (Some R_SAMI) /\
+  detect_format ([178; 10] ++ lit "-->") = Ok (Some R_SRT) /\
+  detect_format ([1633; 10] ++ lit "-->") = Ok (Some R_SRT) /\
+  detect_format ([123; 1633; 125; 123; 65297; 125]) = Ok (Some R_MDVD) /\
+  detect_format ([123; 178; 125; 123; 49; 125]) = Ok None /\
+  detect_format (lit "</t" ++ [305] ++ lit "t>") = Ok None /\
+  detect_format ([8490]) = Ok None.
+Proof. vm_compute. repeat split. Qed.
+
+(* the own-output theorems have satisfiable hypotheses; the texts carry LATER formats' markers and near misses *)
+Example C20_example_own_srt :
+  let cues := [(lit "00:00:01,000 --> 00:00:02,000", lit "Scenarist_SCC V1.0" ++ [10] ++ lit "{1}{2} </tt");
+               (lit "00:00:03,000 --> 00:00:04,000", lit "1")] in
+  srt_first_ok (fst (hd ([], []) cues)) = true /\ forallb srt_cue_ok cues = true /\
+  srt_document cues = lit "1
+00:00:01,000 --> 00:00:02,000
+Scenarist_SCC V1.0
+{1}{2} </tt
+
+2
+00:00:03,000 --> 00:00:04,000
+1
+" /\ detect_format (srt_document cues) = Ok (Some R_SRT).
+Proof. vm_compute. repeat split. Qed.
+
+Example C20_example_own_mdvd :
+  let cues := [(frames_prefix (lit "25") (lit "50"), lit "WEBVTT|<sami>"); (lit "{75}{100}", lit "-->")] in
+  forallb mdvd_cue_ok cues = true /\
+  mdvd_document cues = lit "{25}{50}WEBVTT|<sami>
+{75}{100}-->
+" /\ detect_format (mdvd_document cues) = Ok (Some R_MDVD).
+Proof. vm_compute. repeat split. Qed.
+
+Example C20_example_own_vtt_scc :
+  forallb (free before_vtt) [lit "00:01.000 --> 00:02.000"; lit "<sami> {1}{2}"; []] = true /\
+  detect_format (vtt_document [lit "00:01.000 --> 00:02.000"; lit "<sami> {1}{2}"; []]) = Ok (Some R_VTT) /\
+  forallb scc_body_char (lit "00:00:01:00	94ae 94ae 9420 9420 9470 9470 6162 942c 942c 942f 942f") = true /\
+  detect_format (scc_document (lit "00:00:01:00	94ae 9420")) = Ok (Some R_SCC).
+Proof. vm_compute. repeat split. Qed.
+
+(* the hypotheses matter: a piece carrying an earlier format's marker is rejected by them, and rightly so *)
+Example C20_example_own_needs_hypothesis :
+  srt_cue_ok (lit "00:00:01,000 --> 00:00:02,000", lit "x</TT>") = false /\
+  detect_format (srt_document [(lit "00:00:01,000 --> 00:00:02,000", lit "x</TT>")]) = Ok (Some R_DFXP).
+Proof. vm_compute. repeat split. Qed.
